@@ -6,6 +6,8 @@ import (
 	"flag"
 	"fmt"
 	"os"
+	"strings"
+	"verif/clih"
 
 	"verif/checks/c01"
 	"verif/checks/c02"
@@ -87,5 +89,9 @@ func main() {
 		os.Exit(r.Finish())
 	}
 	c.run(r)
+	// a Go panic of the real CLI is a violation whatever the check was looking at.
+	for _, p := range clih.TakePanics() {
+		r.Violate("", fmt.Sprintf("the atlas CLI panicked: atlas %s: %s", strings.Join(p.Args, " "), p.Stderr), map[string]any{"cli_panic": p})
+	}
 	os.Exit(r.Finish())
 }
